@@ -105,6 +105,26 @@ Proof.
 Qed.
 Print Assumptions C20_concurrent_equals_alone.
 
+(** A batch (run_backtests) returns one summary per argument set and, at position i, the summary
+    of the i-th backtest computed from the state its own engine reached on its own feed.
+    (C20_schedule_independent / C20_concurrent_equals_alone above are positional as well: they
+    speak about [nth_error ... i] of the system of engines.) *)
+Theorem C20_batch_is_positional :
+  forall (M A St R : Type) (step : St -> ev M A -> St * bool) (summarise : St -> R)
+         (s0 : St) (feeds : list (list (ev M A))) (i : nat),
+  length (run_backtests step summarise s0 feeds) = length feeds /\
+  nth_error (run_backtests step summarise s0 feeds) i =
+    option_map (fun feed => summarise (state_after step s0 (processed (run step s0 feed))))
+               (nth_error feeds i).
+Proof.
+  intros M A St R step summarise s0 feeds i. split.
+  - exact (batch_length M A St R step summarise s0 feeds).
+  - rewrite (batch_positional M A St R step summarise s0 feeds i).
+    destruct (nth_error feeds i) as [feed|]; [|reflexivity]. cbn [option_map]. f_equal.
+    exact (summary_of_own_state M A St R step summarise s0 feed).
+Qed.
+Print Assumptions C20_batch_is_positional.
+
 (** The executable merge used by the correspondence check only produces admissible feeds. *)
 Theorem C20_weave_admissible :
   forall (M A : Type) (ds : list M) (acs : list A) (choices : list bool) (feed : list (ev M A)),
